@@ -132,6 +132,22 @@ FALLBACK = {
     "matchesReFuncs": '["fullmatch", "search", "match"]',
     "frozenPartialKw": '[("frozen", Lit.bool true), ("on_setattr", Lit.none)]',
     "defaultOnSetattr": '["convert", "validate"]',
+    # C17: naming scheme of the helper globals (prefix, suffix around the field name), fixed helper names per
+    # generated script, and the order in which namespaces are merged into the globals of generated methods
+    "c17FactoryAffix": '("__attr_factory_", "")',
+    "c17ValidatorAffix": '("__attr_validator_", "")',
+    "c17AttributeAffix": '("__attr_attribute_", "")',
+    "c17ConverterAffix": '("__attr_converter_", "")',
+    "c17EqKeyAffix": '("_", "_key")',
+    "c17HashKeyAffix": '("_", "_key")',
+    "c17ReprAffix": '("", "_repr")',
+    "c17ReprCallAffix": '("", "_repr")',
+    "c17ReprFixed": '["_compat", "AttributeError", "NOTHING", "id", "getattr"]',
+    "c17EqFixed": '[]',
+    "c17HashFixed": '["hash", "object", "__import__"]',
+    "c17InitFixed": '["NOTHING", "attr_dict"]',
+    "c17EvalMergeOrder": '["module", "snippets"]',
+    "c17InitMergeOrder": '["names", "fixed"]',
 }
 
 TYPES = {
@@ -142,6 +158,12 @@ TYPES = {
     "attribKw": "List (String × Lit)", "fieldKw": "List (String × Lit)",
     "matchesReFuncs": "List String", "frozenPartialKw": "List (String × Lit)",
     "defaultOnSetattr": "List String",
+    "c17FactoryAffix": "String × String", "c17ValidatorAffix": "String × String",
+    "c17AttributeAffix": "String × String", "c17ConverterAffix": "String × String",
+    "c17EqKeyAffix": "String × String", "c17HashKeyAffix": "String × String",
+    "c17ReprAffix": "String × String", "c17ReprCallAffix": "String × String",
+    "c17ReprFixed": "List String", "c17EqFixed": "List String", "c17HashFixed": "List String",
+    "c17InitFixed": "List String", "c17EvalMergeOrder": "List String", "c17InitMergeOrder": "List String",
 }
 
 
@@ -181,6 +203,160 @@ def _default_on_setattr(mk: Src) -> str:
     return lean_list([lean_str(x) for x in names])
 
 
+# ---------------------------------------------------------------------------------------------- C17
+def _lean_pair(a: str, b: str) -> str:
+    return f"({lean_str(a)}, {lean_str(b)})"
+
+
+def _affix_of(node: ast.AST) -> str:
+    """(prefix, suffix) of a name built around exactly one variable part:
+    f"pre{v}suf", "pre" + v, v + "suf", "pre" + v + "suf", "pre%ssuf" % (v,), or a "pre%ssuf" pattern constant."""
+    if isinstance(node, ast.JoinedStr):
+        pre, suf, seen = "", "", 0
+        for part in node.values:
+            if isinstance(part, ast.FormattedValue):
+                if part.conversion != -1 or part.format_spec is not None:
+                    raise ValueError("formatted value with conversion")
+                seen += 1
+            elif isinstance(part, ast.Constant) and isinstance(part.value, str):
+                if seen == 0:
+                    pre += part.value
+                else:
+                    suf += part.value
+            else:
+                raise ValueError("f-string part")
+        if seen != 1:
+            raise ValueError("f-string must have exactly one variable part")
+        return _lean_pair(pre, suf)
+    if isinstance(node, ast.BinOp) and isinstance(node.op, ast.Add):
+        l, r = node.left, node.right
+        lc = isinstance(l, ast.Constant) and isinstance(l.value, str)
+        rc = isinstance(r, ast.Constant) and isinstance(r.value, str)
+        if lc and not rc:
+            if isinstance(r, (ast.Name, ast.Attribute)):
+                return _lean_pair(l.value, "")
+        if rc and not lc:
+            if isinstance(l, (ast.Name, ast.Attribute)):
+                return _lean_pair("", r.value)
+            if isinstance(l, ast.BinOp) and isinstance(l.op, ast.Add) and isinstance(l.left, ast.Constant) \
+                    and isinstance(l.left.value, str) and isinstance(l.right, (ast.Name, ast.Attribute)):
+                return _lean_pair(l.left.value, r.value)
+        raise ValueError("concatenation shape")
+    if isinstance(node, ast.BinOp) and isinstance(node.op, ast.Mod):
+        node = node.left
+    if isinstance(node, ast.Constant) and isinstance(node.value, str):
+        if node.value.count("%s") != 1 or node.value.replace("%s", "").count("%"):
+            raise ValueError("pattern must contain exactly one %s")
+        pre, suf = node.value.split("%s")
+        return _lean_pair(pre, suf)
+    raise ValueError("unrecognised name expression")
+
+
+def _assigned_value(fn: ast.AST, target: str, pred=lambda v: True) -> ast.AST:
+    hits = [n.value for n in ast.walk(fn)
+            if isinstance(n, ast.Assign) and len(n.targets) == 1 and isinstance(n.targets[0], ast.Name)
+            and n.targets[0].id == target and pred(n.value)]
+    if not hits:
+        raise ValueError(f"no assignment to {target}")
+    first = ast.dump(hits[0])
+    if any(ast.dump(h) != first for h in hits):
+        raise ValueError(f"{target} is built in different ways")
+    return hits[0]
+
+
+def _is_built(v: ast.AST) -> bool:
+    return isinstance(v, (ast.JoinedStr, ast.BinOp))
+
+
+def _c17_converter_affix(mk: Src) -> str:
+    fn = mk.func("_get_global_name")
+    rets = [n.value for n in ast.walk(fn) if isinstance(n, ast.Return)]
+    if len(rets) != 1:
+        raise ValueError("_get_global_name shape")
+    return _affix_of(rets[0])
+
+
+def _c17_repr_affix(mk: Src) -> str:
+    fn = mk.func("_make_repr_script")
+    for n in ast.walk(fn):
+        if isinstance(n, ast.DictComp):
+            return _affix_of(n.key)
+    raise ValueError("repr globs comprehension not found")
+
+
+def _c17_repr_call_affix(mk: Src) -> str:
+    import re
+
+    fn = mk.func("_make_repr_script")
+    found = []
+    for n in ast.walk(fn):
+        if isinstance(n, ast.Constant) and isinstance(n.value, str):
+            m = re.fullmatch(r"%s=\{%s(\w*)\(%s\)\}", n.value)
+            if m:
+                found.append(m.group(1))
+    if len(found) != 1:
+        raise ValueError("custom-repr fragment not found")
+    return _lean_pair("", found[0])
+
+
+def _in_order(fn: ast.AST):
+    nodes = [n for n in ast.walk(fn) if hasattr(n, "lineno")]
+    nodes.sort(key=lambda n: (n.lineno, n.col_offset))
+    return nodes
+
+
+def _c17_fixed_globs(mk: Src, func: str) -> str:
+    """constant keys put into `globs` by a script generator: `globs = {...}`, `globs["k"] = v`,
+    `globs.update({...})` -- unconditional statements of the function body only"""
+    fn = mk.func(func)
+    keys = []
+
+    def dict_keys(d):
+        for k in d.keys:
+            if k is None:       # `**other` inside the literal: not a fixed name
+                continue
+            if isinstance(k, ast.Constant) and isinstance(k.value, str):
+                keys.append(k.value)
+            else:
+                raise ValueError("non-constant key")
+
+    for st in fn.body:
+        if isinstance(st, ast.Assign) and len(st.targets) == 1:
+            t = st.targets[0]
+            if isinstance(t, ast.Name) and t.id == "globs" and isinstance(st.value, ast.Dict):
+                dict_keys(st.value)
+            elif isinstance(t, ast.Subscript) and isinstance(t.value, ast.Name) and t.value.id == "globs" \
+                    and isinstance(t.slice, ast.Constant) and isinstance(t.slice.value, str):
+                keys.append(t.slice.value)
+        elif isinstance(st, ast.Expr) and isinstance(st.value, ast.Call) and ast.unparse(st.value.func) == "globs.update" \
+                and len(st.value.args) == 1 and isinstance(st.value.args[0], ast.Dict):
+            dict_keys(st.value.args[0])
+    return lean_list([lean_str(k) for k in keys])
+
+
+def _c17_merge_order(mk: Src, func: str) -> str:
+    """the order in which namespaces reach the globals dict of the generated functions"""
+    fn = mk.func(func)
+    out = []
+    for n in _in_order(fn):
+        if isinstance(n, ast.Call) and ast.unparse(n.func) == "globs.update" and len(n.args) == 1:
+            a = n.args[0]
+            if "sys.modules" in ast.unparse(a) or "__dict__" in ast.unparse(a):
+                out.append("module")
+            elif isinstance(a, ast.Name) and a.id == "snippet_globs":
+                out.append("snippets")
+            elif isinstance(a, ast.Dict):
+                out.append("fixed")
+            else:
+                raise ValueError("unrecognised globs.update argument")
+        elif isinstance(n, ast.Assign) and isinstance(n.value, ast.Call) \
+                and ast.unparse(n.value.func) == "_attrs_to_init_script":
+            out.append("names")
+    if not out:
+        raise ValueError("no merges found")
+    return lean_list([lean_str(x) for x in out])
+
+
 def extract() -> tuple[dict, list]:
     vals, broken = {}, []
 
@@ -216,6 +392,21 @@ def extract() -> tuple[dict, list]:
     item("matchesReFuncs", lambda: _matches_re_funcs(src("validators.py")))
     item("frozenPartialKw", lambda: _frozen_partial(src("_next_gen.py")))
     item("defaultOnSetattr", lambda: _default_on_setattr(src("_make.py")))
+    mk = lambda: src("_make.py")  # noqa: E731
+    item("c17FactoryAffix", lambda: _affix_of(mk().const("_INIT_FACTORY_PAT")))
+    item("c17ValidatorAffix", lambda: _affix_of(_assigned_value(mk().func("_attrs_to_init_script"), "val_name", _is_built)))
+    item("c17AttributeAffix", lambda: _affix_of(_assigned_value(mk().func("_attrs_to_init_script"), "attr_name", _is_built)))
+    item("c17ConverterAffix", lambda: _c17_converter_affix(mk()))
+    item("c17EqKeyAffix", lambda: _affix_of(_assigned_value(mk().func("_make_eq_script"), "cmp_name")))
+    item("c17HashKeyAffix", lambda: _affix_of(_assigned_value(mk().func("_make_hash_script"), "cmp_name")))
+    item("c17ReprAffix", lambda: _c17_repr_affix(mk()))
+    item("c17ReprCallAffix", lambda: _c17_repr_call_affix(mk()))
+    item("c17ReprFixed", lambda: _c17_fixed_globs(mk(), "_make_repr_script"))
+    item("c17EqFixed", lambda: _c17_fixed_globs(mk(), "_make_eq_script"))
+    item("c17HashFixed", lambda: _c17_fixed_globs(mk(), "_make_hash_script"))
+    item("c17InitFixed", lambda: _c17_fixed_globs(mk(), "_make_init_script"))
+    item("c17EvalMergeOrder", lambda: _c17_merge_order(mk(), "_eval_snippets"))
+    item("c17InitMergeOrder", lambda: _c17_merge_order(mk(), "_make_init_script"))
     return vals, broken
 
 
